@@ -88,6 +88,9 @@ def arr_subscript(o, idx):
     if len(idx) > o.ndim: raise PyRaise(_exc("IndexError"), "too many indices")
     # plan per source axis: ("int", i) | ("slice", start, length) | ("gather", arr) ; result dims in order
     plan = []; gathers = []
+    if len(idx) == 1 and isinstance(idx[0], slice) and idx[0].step == -1 and idx[0].start is None and idx[0].stop is None:
+        n = o.shape[0]                                     # x[::-1] along the leading axis
+        return SArr(o.shape, lambda ridx: o.get((plus(plus(n, -1), binop_("Sub", 0, ridx[0])),) + tuple(ridx[1:])))
     for ax, ix in enumerate(idx):
         n = o.shape[ax]
         if isinstance(ix, slice):
